@@ -90,13 +90,14 @@ class Check:
                 known_hit.append((v, open_keys[key]))
             else:
                 real.append(v)
-        os.makedirs(os.path.join(VERIF_ROOT, 'evidence', 'replay'), exist_ok=True)
+        ev_dir = os.environ.get('HIDVERIF_EVIDENCE_DIR') or os.path.join(VERIF_ROOT, 'evidence')
+        os.makedirs(os.path.join(ev_dir, 'replay'), exist_ok=True)
         lines = []
         for v, k in known_hit:
             lines.append(f"KNOWN-FINDING: property={self.prop} rule={v['rule']} "
                          f"construct={v['construct']} :: {k.get('what', v['detail'])}")
         for n, v in enumerate(real):
-            path = os.path.join(VERIF_ROOT, 'evidence', 'replay', f'{self.prop}-{n}.json')
+            path = os.path.join(ev_dir, 'replay', f'{self.prop}-{n}.json')
             with open(path, 'w') as f:
                 json.dump(v, f, indent=1)
             loc = f"{v['file']}:{v['line']}" if v.get('file') else ''
@@ -141,7 +142,7 @@ class Check:
             'wall_s': round(wall, 3),
             'violations': len(real),
         }
-        with open(os.path.join(VERIF_ROOT, 'evidence', f'{self.prop}.json'), 'w') as f:
+        with open(os.path.join(ev_dir, f'{self.prop}.json'), 'w') as f:
             json.dump(evidence, f, indent=1, default=str)
         print(f'[{self.prop}] tier={self.tier} rule-instances={n_inst} distinct={distinct} '
               f'hold={evidence["coverage"]["discharged"]} analysed={self.analysed} wall={wall:.2f}s')
